@@ -71,16 +71,78 @@ func vfc18HashSlot(k []byte) int {
 // ------------------------------------------------------------ node double
 
 type vfc18Block struct {
-	Node int
-	Cmds [][][]byte // queued commands (name first)
+	Node     int
+	Cmds     [][][]byte // queued commands (name first)
+	Rejected string     // non-empty: the node refused the block itself (CROSSSLOT / MOVED: not served here)
+	Injected string     // non-empty: a fault the harness asked for
 }
 
+// vfc18Nodes: cluster node doubles. Each node serves the slots ownerIdx says,
+// and — like a real cluster node — refuses at queue time a command whose keys
+// (positions registered by the generator in `truth`, first argument for the
+// tool's own SET/HSET/ZADD) are not served here (-MOVED) or do not share the
+// block's slot (-CROSSSLOT), and then answers EXEC with -EXECABORT.
 type vfc18Nodes struct {
 	mu     sync.Mutex
 	lns    []net.Listener
 	addrs  []string
 	blocks []vfc18Block
 	stray  int // commands received outside MULTI…EXEC
+	reqs   int // every request received (for quiescence detection)
+
+	truth   map[string][]int // lower(name)+"\x00"+args → key positions
+	enforce bool
+	// one-shot fault for the next block that reaches any node:
+	//   crossslot (queue-time error + EXECABORT), execerr (error entry inside the EXEC array),
+	//   moved / ask (redirect the whole block to the next node once)
+	inject     string
+	acceptOnce int // node index that accepts its next block whatever the slots (redirect target); -1 = none
+}
+
+func (ns *vfc18Nodes) ownerIdx(slot int) int { return slot * len(ns.addrs) / 16384 }
+
+func vfc18TruthKey(cmd [][]byte) string {
+	parts := make([]string, len(cmd))
+	for i, a := range cmd {
+		if i == 0 {
+			parts[i] = strings.ToLower(string(a))
+		} else {
+			parts[i] = string(a)
+		}
+	}
+	return strings.Join(parts, "\x00")
+}
+
+func (ns *vfc18Nodes) register(c vfc18Cmd) {
+	if c.Class != "known" {
+		return
+	}
+	ns.mu.Lock()
+	if ns.truth == nil {
+		ns.truth = map[string][]int{}
+	}
+	cmd := append([][]byte{[]byte(c.Name)}, c.Args...)
+	ns.truth[vfc18TruthKey(cmd)] = c.Truth
+	ns.mu.Unlock()
+}
+
+// keysOf: the key positions the node knows for a queued command (nil = unknown)
+func (ns *vfc18Nodes) keysOf(cmd [][]byte) [][]byte {
+	name := strings.ToLower(string(cmd[0]))
+	if idx, ok := ns.truth[vfc18TruthKey(cmd)]; ok {
+		var ks [][]byte
+		for _, i := range idx {
+			if 1+i < len(cmd) {
+				ks = append(ks, cmd[1+i])
+			}
+		}
+		return ks
+	}
+	if len(cmd) > 1 && (name == "set" || name == "hset" || name == "zadd") &&
+		strings.HasPrefix(string(cmd[1]), checkpoint.BisyncKeyPrefix+":") {
+		return [][]byte{cmd[1]}
+	}
+	return nil
 }
 
 func vfc18ReadCmd(br *bufio.Reader) ([][]byte, error) {
@@ -120,7 +182,7 @@ func vfc18ReadCmd(br *bufio.Reader) ([][]byte, error) {
 }
 
 func vfc18StartNodes(n int) (*vfc18Nodes, error) {
-	ns := &vfc18Nodes{}
+	ns := &vfc18Nodes{acceptOnce: -1, enforce: true}
 	for i := 0; i < n; i++ {
 		ln, err := net.Listen("tcp", "127.0.0.1:0")
 		if err != nil {
@@ -148,6 +210,9 @@ func (ns *vfc18Nodes) serve(idx int, c net.Conn) {
 	bw := bufio.NewWriter(c)
 	inMulti := false
 	var cur [][][]byte
+	blockSlot := -1
+	rejected, injected := "", ""
+	accept := false
 	for {
 		cmd, err := vfc18ReadCmd(br)
 		if err != nil {
@@ -156,25 +221,91 @@ func (ns *vfc18Nodes) serve(idx int, c net.Conn) {
 		if len(cmd) == 0 {
 			continue
 		}
+		ns.mu.Lock()
+		ns.reqs++
+		ns.mu.Unlock()
 		name := strings.ToLower(string(cmd[0]))
 		switch {
+		case name == "asking":
+			accept = true
+			bw.WriteString("+OK\r\n")
 		case name == "multi":
 			inMulti = true
-			cur = nil
+			cur, blockSlot, rejected, injected = nil, -1, "", ""
+			ns.mu.Lock()
+			if ns.acceptOnce == idx {
+				accept = true
+				ns.acceptOnce = -1
+			}
+			if ns.inject != "" && !accept {
+				injected = ns.inject
+				ns.inject = ""
+			}
+			ns.mu.Unlock()
 			bw.WriteString("+OK\r\n")
 		case name == "exec":
 			ns.mu.Lock()
-			ns.blocks = append(ns.blocks, vfc18Block{Node: idx, Cmds: cur})
+			ns.blocks = append(ns.blocks, vfc18Block{Node: idx, Cmds: cur, Rejected: rejected, Injected: injected})
 			ns.mu.Unlock()
-			fmt.Fprintf(bw, "*%d\r\n", len(cur))
-			for range cur {
-				bw.WriteString("+OK\r\n")
+			switch {
+			case rejected != "" || injected == "crossslot" || injected == "moved" || injected == "ask":
+				bw.WriteString("-EXECABORT Transaction discarded because of previous errors.\r\n")
+			case injected == "execerr":
+				fmt.Fprintf(bw, "*%d\r\n", len(cur))
+				for i := range cur {
+					if i == 1 {
+						bw.WriteString("-ERR injected failure of a queued command\r\n")
+					} else {
+						bw.WriteString("+OK\r\n")
+					}
+				}
+			default:
+				fmt.Fprintf(bw, "*%d\r\n", len(cur))
+				for range cur {
+					bw.WriteString("+OK\r\n")
+				}
 			}
-			inMulti = false
+			inMulti, accept = false, false
 			cur = nil
 		case inMulti:
 			cur = append(cur, cmd)
-			bw.WriteString("+QUEUED\r\n")
+			reply := "+QUEUED\r\n"
+			ns.mu.Lock()
+			enforce := ns.enforce && !accept
+			var keys [][]byte
+			if enforce {
+				keys = ns.keysOf(cmd)
+			}
+			next := ns.addrs[(idx+1)%len(ns.addrs)]
+			ns.mu.Unlock()
+			switch {
+			case injected == "moved" && len(cur) == 1:
+				ns.mu.Lock()
+				ns.acceptOnce = (idx + 1) % len(ns.addrs)
+				ns.mu.Unlock()
+				reply = fmt.Sprintf("-MOVED %d %s\r\n", vfc18HashSlot(cmd[1]), next)
+			case injected == "ask" && len(cur) == 1:
+				reply = fmt.Sprintf("-ASK %d %s\r\n", vfc18HashSlot(cmd[1]), next)
+			case injected == "crossslot" && len(cur) == 2:
+				reply = "-CROSSSLOT Keys in request don't hash to the same slot\r\n"
+			default:
+				for _, k := range keys {
+					sl := vfc18HashSlot(k)
+					if ns.ownerIdx(sl) != idx {
+						rejected = "moved"
+						reply = fmt.Sprintf("-MOVED %d %s\r\n", sl, ns.addrs[ns.ownerIdx(sl)])
+						break
+					}
+					if blockSlot < 0 {
+						blockSlot = sl
+					} else if sl != blockSlot {
+						rejected = "crossslot"
+						reply = "-CROSSSLOT Keys in request don't hash to the same slot\r\n"
+						break
+					}
+				}
+			}
+			bw.WriteString(reply)
 		default:
 			ns.mu.Lock()
 			ns.stray++
@@ -185,6 +316,12 @@ func (ns *vfc18Nodes) serve(idx int, c net.Conn) {
 			bw.Flush()
 		}
 	}
+}
+
+func (ns *vfc18Nodes) reqCount() int {
+	ns.mu.Lock()
+	defer ns.mu.Unlock()
+	return ns.reqs
 }
 
 func (ns *vfc18Nodes) take() ([]vfc18Block, int) {
@@ -217,11 +354,21 @@ func (r *vfc18Redis) BufioWriter() *bufio.Writer                         { retur
 func (r *vfc18Redis) Flush() error                                       { return nil }
 func (r *vfc18Redis) RedisType() config.RedisType                        { return config.RedisTypeCluster }
 func (r *vfc18Redis) Addresses() []string                                { return nil }
-func (r *vfc18Redis) NewBatcher(bool) rediscommon.CmdBatcher             { return nil }
+func (r *vfc18Redis) NewBatcher(bool) rediscommon.CmdBatcher             { return &vfc18NopBatcher{} }
 func (r *vfc18Redis) NewTxnBatcher() rediscommon.CmdBatcher              { return r.c.NewTxnBatcher() }
 func (r *vfc18Redis) IterateNodes(func(string, interface{}, error), string, ...interface{}) {}
 
 var _ client.Redis = (*vfc18Redis)(nil)
+
+// vfc18NopBatcher: the coordinator's non-transactional bookkeeping (frontier
+// HSET goes through Do; journal DEL / index ZREM through this) is not C18's subject
+type vfc18NopBatcher struct{ n int }
+
+func (b *vfc18NopBatcher) Put(string, ...interface{}) error { b.n++; return nil }
+func (b *vfc18NopBatcher) Len() int                         { return b.n }
+func (b *vfc18NopBatcher) Dispatch() error                  { return nil }
+func (b *vfc18NopBatcher) Receive() ([]interface{}, error)  { return make([]interface{}, b.n), nil }
+func (b *vfc18NopBatcher) Exec() ([]interface{}, error)     { return make([]interface{}, b.n), nil }
 
 // ------------------------------------------------------------ fall-back (COMMAND GETKEYS double)
 
@@ -539,6 +686,8 @@ func vfc18GenCmd(r *vfutil.Rand, key func() []byte) (vfc18Cmd, string) {
 		name := t.name
 		if r.Chance(1, 6) {
 			name = strings.ToUpper(name)
+		} else if r.Chance(1, 8) {
+			name = strings.ToUpper(name[:1]) + name[1:] // mixed case
 		}
 		return vfc18Cmd{Name: name, Args: args, Truth: idx, Known: true, Class: "known"}, "known"
 	}
@@ -679,6 +828,7 @@ type vfc18World struct {
 	cp       string
 	ro       *RedisOutput
 	clusters map[string]*cluster.Cluster
+	privSeq  int
 }
 
 // owner of a slot in the client's slot map: equal ranges over n nodes
@@ -706,7 +856,7 @@ func (w *vfc18World) newCluster(fb string, hole int) *cluster.Cluster {
 				raw = append(raw, []byte(x))
 			}
 		}
-		return vfc18Fb(fb, raw)
+		return vfc18Fb(strings.SplitN(fb, "#", 2)[0], raw)
 	})
 	if w.clusters == nil {
 		w.clusters = map[string]*cluster.Cluster{}
@@ -817,6 +967,9 @@ func (w *vfc18World) replayOne(r *vfutil.Rand, cmds []vfc18Cmd, fb string, src s
 	s := w.s
 	toks := vfc18Toks(cmds)
 	truth := vfc18TruthOf(cmds, fb)
+	for _, c := range cmds {
+		w.nodes.register(c)
+	}
 	replay := map[string]interface{}{"cmds": toks, "fb": fb}
 	resolver := func(cmd string, args [][]byte) ([]string, bool, error) {
 		return resolveBisyncCommandKeys(&vfc18Introspector{fb: fb}, cmd, args)
@@ -897,6 +1050,9 @@ func (w *vfc18World) replayOne(r *vfutil.Rand, cmds []vfc18Cmd, fb string, src s
 		return
 	}
 	blk := blocks[0]
+	if blk.Rejected != "" {
+		s.Violate("node-rejected-block", "the slot-checking node refused a block the tool sent ("+blk.Rejected+") although the commit reported success", replay)
+	}
 	// canonicalise: marker value and record fields are payload, checked separately
 	canon := make([][][]byte, len(blk.Cmds))
 	for i, c := range blk.Cmds {
@@ -1073,6 +1229,11 @@ func TestVerifC18(t *testing.T) {
 		s.Op("c18 build c none", "err "+vfc18BuildErr(berr))
 	}
 
+	// ---- the real parser + send loops into the node doubles; snapshot phase; global lane
+	w.loopCases(r, vfutil.Scale(60, 1500))
+	w.rdbCases(r, vfutil.Scale(300, 6000))
+	w.globalCases(r, vfutil.Scale(10, 100))
+
 	// ---- corpus, then generated transactions
 	for _, l := range vfutil.Corpus("C18") {
 		// corpus line: <fb> <cmd> <cmd>…  (Known/Truth unknown: correspondence + end-to-end monitors only)
@@ -1082,12 +1243,28 @@ func TestVerifC18(t *testing.T) {
 		}
 		var cmds []vfc18Cmd
 		for _, tok := range f[1:] {
+			// optional key positions known to whoever wrote the line: K0.2=<cmd>
+			var truthIdx []int
+			hasTruth := false
+			if strings.HasPrefix(tok, "K") && strings.Contains(tok, "=") {
+				eq := strings.Index(tok, "=")
+				for _, x := range strings.Split(tok[1:eq], ".") {
+					if n, err := strconv.Atoi(x); err == nil {
+						truthIdx = append(truthIdx, n)
+					}
+				}
+				tok = tok[eq+1:]
+				hasTruth = true
+			}
 			parts := strings.Split(tok, ",")
 			c := vfc18Cmd{Name: string(vfutil.UnHex(parts[0])), Class: "corpus"}
 			for _, p := range parts[1:] {
 				c.Args = append(c.Args, vfutil.UnHex(p))
 			}
 			c.Truth = []int{}
+			if hasTruth {
+				c.Truth, c.Known, c.Class = truthIdx, true, "known"
+			}
 			cmds = append(cmds, c)
 		}
 		w.replayOne(r, cmds, f[0], "corpus")
